@@ -490,7 +490,7 @@ fn format_socket_addr(
 fn parse_socket_addr<T: FromStr>(s: &str) -> Option<(T, u16)> {
     let (bracketed_addr, port) = s.rsplit_once(':')?;
 
-    if !bracketed_addr.starts_with('[') && bracketed_addr.ends_with(']') {
+    if !(bracketed_addr.starts_with('[') && bracketed_addr.ends_with(']')) {
         return None;
     }
 
